@@ -234,7 +234,7 @@ def cons_names(t):
 def gen_cases(prop, seed, n_types, per):
     rnd = random.Random(seed * 1000003 + hash(prop) % 997 if False else seed * 1000003 + sum(map(ord, prop)))
     pool = Pool(); g = Gen(rnd, pool, KINDS_BY_PROP.get(prop))
-    if prop in ("C01", "C02", "C03", "C08") and not KINDS_BY_PROP.get(prop): g.kinds = g.kinds + ["depreq", "aggregate"]
+    if prop in ("C01", "C02", "C03", "C08", "C14") and not KINDS_BY_PROP.get(prop): g.kinds = g.kinds + ["depreq", "aggregate"]
     if prop == "C08": g.kinds = g.kinds + ["postinit", "postinit", "plain", "plain"]
     types = []
     for _ in range(n_types):
@@ -291,7 +291,7 @@ def evaluate(prop, t, tp, d, o, ns, mo):
     im = run_impl(tp, d, o, keep=keep)
     # outside the model's datum type: instances of subclasses of the JSON classes; dicts with non-string keys under a
     # uniqueness test (`to_hashable` sorts the items: whether that works depends on the keys' classes)
-    modelled = not ({"depreq", "postinit", "aggregate"} & t.features()) and not has_other(d, SUBCLASSED) and not ('"dn"' in json.dumps(dproto(d)) and ({"clist", "set", "frozenset"} & t.features()))
+    modelled = not ({"postinit", "aggregate"} & t.features()) and not has_other(d, SUBCLASSED) and not ('"dn"' in json.dumps(dproto(d)) and ({"clist", "set", "frozenset"} & t.features()))
     m = canon_model(mo["model"]) if "model" in mo else None
     oos = isinstance(m, dict) and str(m.get("crash", "")).startswith("ModelScope")
     k_ok = None if (m is None or oos or not modelled) else same(im, m)
